@@ -510,8 +510,8 @@ def divide_outputs(
                 break
 
             try:
-                for d, x in result.items():
-                    mailboxes[d].send(x)
+                for d in outputs:
+                    mailboxes[d].send(result[d])
             except Exception as e:
                 # Inform the source we're going down
                 try:
